@@ -28,7 +28,7 @@ def run(ctx):
     with ThreadPoolExecutor(max_workers=4) as ex:
         f1 = ex.submit(fe.emit_family, ctx, "323", dn, grid(1, 3)[:: (1 if not quick else 1)], grid(1, 3))
         f2 = ex.submit(fe.emit_family, ctx, "423", dn, grid(1, 2), grid(2, 3))
-        f3 = ex.submit(fe.emit_uniform, ctx, 40 if quick else 200)
+        f3 = ex.submit(fe.emit_uniform, ctx, 200)
         # parameters within a few 1e-4 of the degenerate loci (edges of the domain, the line a + c = 4): the exact polytope
         # has very short edges there, which must still be resolved
         f4 = ex.submit(fe.emit_family, ctx, "323", 10000, [10000, 10003, 15002, 20001, 29997, 30000], [10000, 10002, 19998, 25000, 29996, 30000])
@@ -38,6 +38,10 @@ def run(ctx):
         f6 = ex.submit(fe.emit_523, ctx, pts)
         recs = f1.result() + f2.result() + f4.result() + f5.result()
         urecs = f3.result()
+        if quick:
+            # every n up to 200 for the n-gons (cheap); the solids for n <= 40 and a seeded tenth of the larger n
+            urecs = [r for r in urecs if r.get("k") == "corner523" or r.get("fam") == "ngon" or r["n"] <= 40
+                     or (r["n"] * 7 + len(r["fam"]) + ctx.seed) % 10 == 0]
         recs523 = f6.result()
     for r, (mism, st) in zip(recs523, pmap(fe.eval_family523, recs523)):
         ctx.case(("523", json.dumps(r["a"]), json.dumps(r["c"])), nontrivial=True,
